@@ -11,7 +11,7 @@
    regenerated from MPSBackendImpl.save_simulation on every run; the check evaluates
    `safe save_ops` with vm_compute: `true` discharges C27 through C27_save_simulation_verdict,
    `false` makes it report the crash point found by `find_bad_on` and replay it on a real directory. *)
-From Coq Require Import List.
+From Coq Require Import List String.
 From EV Require Import Model.Fs Gen.SaveOps Proofs.FsProofs.
 Import ListNotations.
 
@@ -64,23 +64,48 @@ Theorem C27_check_complete :
     (holds s Old \/ holds s New) /\ In s' (trace pl New p s) /\ ~ (holds s' Old \/ holds s' New).
 Proof. exact safe_complete. Qed.
 
+(* Paths alias.  `with_suffix(".s")` of an advertised name that itself ends in ".s" IS the advertised
+   file (a resumed run advertises whatever path the user passed to resume); an appended name and a
+   replaced suffix coincide when the advertised name has no suffix.  [resolve sg p] is the routine as
+   it acts on real paths when the advertised name ends in sg; a check that passes on p and on the
+   finitely many classes that matter passes for EVERY ending. *)
+Theorem C27_alias_classes_cover :
+  forall (chk : list op -> bool) (p : list op),
+    all_classes chk p = true -> forall sg : option string, chk (resolve sg p) = true.
+Proof. exact all_classes_sound. Qed.
+
 (* The routine translated from the current source: either it is crash-safe for every history of
-   autosaves, or a violating disk and crash point exist — decided by evaluating `safe save_ops`. *)
+   autosaves WHATEVER the advertised file is called, or a violating disk and crash point exist for
+   some ending of the advertised name — decided by evaluating `all_classes safe save_ops`. *)
 Theorem C27_save_simulation_verdict :
-  if safe save_ops
-  then forall (C : Type) (C_eq_dec : forall x y : C, {x = y} + {x <> y}) (pl : platform)
+  if all_classes safe save_ops
+  then forall (sg : option string)
+              (C : Type) (C_eq_dec : forall x y : C, {x = y} + {x <> y}) (pl : platform)
               (s : fs C) (c0 : C) (cs : list C) (s' : fs C),
-         holds s c0 -> history pl save_ops s cs s' -> exists c, holds s' c /\ In c (c0 :: cs)
-  else exists (pl : platform) (s s' : fs tok),
-         (holds s Old \/ holds s New) /\ In s' (trace pl New save_ops s) /\
+         holds s c0 -> history pl (resolve sg save_ops) s cs s' ->
+         exists c, holds s' c /\ In c (c0 :: cs)
+  else exists q : list op, (q = save_ops \/ exists sg, q = resolve sg save_ops) /\
+       exists (pl : platform) (s s' : fs tok),
+         (holds s Old \/ holds s New) /\ In s' (trace pl New q s) /\
          ~ (holds s' Old \/ holds s' New).
-Proof. exact (verdict save_ops). Qed.
+Proof. exact (verdict_all save_ops). Qed.
 
 (* The premises are satisfiable: write-then-atomic-replace passes all three checks; writing the
    advertised file in place does not. *)
 Example C27_atomic_replace_passes :
   safe atomic_replace = true /\ fresh atomic_replace = true /\ completes atomic_replace = true.
 Proof. exact atomic_replace_safe. Qed.
+
+(* write-then-replace with an APPENDED temporary name passes for every ending of the advertised name;
+   with a REPLACED suffix it fails exactly when the advertised name ends in that suffix. *)
+Example C27_appended_temp_name_passes :
+  all_classes safe atomic_replace_appended = true /\ all_classes fresh atomic_replace_appended = true /\
+  all_classes completes atomic_replace_appended = true.
+Proof. exact appended_safe_every_class. Qed.
+
+Example C27_replaced_suffix_aliases :
+  all_classes safe atomic_replace = false /\ safe (resolve (Some "new"%string) atomic_replace) = false.
+Proof. exact replaced_suffix_unsafe_when_aliased. Qed.
 
 Example C27_write_in_place_fails : safe [Do (Write Adv)] = false.
 Proof. exact write_in_place_unsafe. Qed.
